@@ -90,6 +90,15 @@ add("C30", "structure", "exploration", "runtime monitor: reference map target ->
     "Random assignment sequences over the full style attribute space with equal styles meeting on purpose, interleaved with named-style creation, application and update.",
     "Trusted base: the expectation rules in c30.rs (row/column styles restyle existing cells; cells linked to a named style follow its updates).")
 
+CRASH_NOTE = ("Trusted base: the panic hook / catch_unwind capture, the child-process driver and its bisection (crash.rs). Children run on an "
+              "8 MiB stack. A watchdog firing is inconclusive unless it reproduces alone (C25 re-runs the case for 90 s).")
+add("C11", "codec", "exploration", "runtime monitor: crash capture (panic hook, catch_unwind, child processes with exit-status classification and bisection) over hostile text workloads",
+    "Random Unicode, mutated harness-printed formulas, mutated format codes x extreme numbers, all cursors of short texts and nesting series through lexer, parser, both input paths, completion, F4 cycling and format_number in 30 language/locale pairs.",
+    CRASH_NOTE)
+add("C25", "xlsx", "fault_enumeration", "runtime monitor: crash and hang capture in child processes over byte-, zip-, XML-element- and attribute-level mutants of real xlsx packages",
+    "Each indexed mutant of the repository's own xlsx test files is imported, turned into a Model and evaluated in a child process; panics, aborts and reproducible timeouts are violations.",
+    CRASH_NOTE)
+
 NOT_YET = {}
 
 def main():
